@@ -111,6 +111,9 @@ func matchGlyph(gid gID, value uint16) bool { return gid == gID(value) }
 
 // interprets `value` as a Class
 func matchClass(class tables.ClassDef) matcherFunc {
+	if class == nil { // null offset: every glyph has class 0
+		return func(_ gID, value uint16) bool { return value == 0 }
+	}
 	return func(gid gID, value uint16) bool {
 		c, _ := class.Class(gid)
 		return uint16(c) == value
@@ -120,6 +123,9 @@ func matchClass(class tables.ClassDef) matcherFunc {
 // interprets `value` as an index in coverage array
 func matchCoverage(covs []tables.Coverage) matcherFunc {
 	return func(gid gID, value uint16) bool {
+		if covs[value] == nil { // null offset: nothing is covered
+			return false
+		}
 		_, covered := covs[value].Index(gid)
 		return covered
 	}
@@ -442,7 +448,11 @@ func (c *otApplyContext) matchPropertiesMark(glyph GID, glyphProps uint16, match
 		if int(matchProps>>16) >= len(sets) { // invalid font: no such set, nothing is covered
 			return false
 		}
-		_, has := sets[matchProps>>16].Index(gID(glyph))
+		set := sets[matchProps>>16]
+		if set == nil { // null offset: nothing is covered
+			return false
+		}
+		_, has := set.Index(gID(glyph))
 		return has
 	}
 
@@ -1050,7 +1060,10 @@ func (c *otApplyContext) applyLookupContext1(data tables.SequenceContextFormat1,
 }
 
 func (c *otApplyContext) applyLookupContext2(data tables.SequenceContextFormat2, index int, glyphID GID) bool {
-	class, _ := data.ClassDef.Class(gID(glyphID))
+	var class uint16
+	if data.ClassDef != nil { // else null offset: every glyph has class 0
+		class, _ = data.ClassDef.Class(gID(glyphID))
+	}
 	var ruleSet tables.SequenceRuleSet
 	if int(class) < len(data.ClassSeqRuleSet) {
 		ruleSet = data.ClassSeqRuleSet[class]
@@ -1085,7 +1098,10 @@ func (c *otApplyContext) applyLookupChainedContext1(data tables.ChainedSequenceC
 }
 
 func (c *otApplyContext) applyLookupChainedContext2(data tables.ChainedSequenceContextFormat2, index int, glyphID GID) bool {
-	class, _ := data.InputClassDef.Class(gID(glyphID))
+	var class uint16
+	if data.InputClassDef != nil { // else null offset: every glyph has class 0
+		class, _ = data.InputClassDef.Class(gID(glyphID))
+	}
 	var ruleSet tables.ChainedClassSequenceRuleSet
 	if int(class) < len(data.ChainedClassSeqRuleSet) {
 		ruleSet = data.ChainedClassSeqRuleSet[class]
